@@ -101,20 +101,10 @@ def _kink_ok(node, x, c, got_ld, tol, sign):
     """At a point the implementation compares against, the log-det jumps and one ulp of rounding decides the
     side.  Accept the combinator's value if the reference FORWARD log-det at x with the tied coordinates
     displaced by +-1e-9 reproduces it (sign=-1: the inverse log-det at the image of x)."""
-    import itertools
-    pool = set(float(v) for v in bd.tree_points(node))
-    af = np.asarray(x, np.float64).reshape(-1)
-    tied = [i for i, v in enumerate(af) if float(v) in pool][:4]
-    if not tied:
-        return False
-    for signs in itertools.product((1.0, -1.0), repeat=len(tied)):
-        an = af.copy()
-        for i, sg in zip(tied, signs):
-            an[i] += sg * 1e-9 * (1 + abs(an[i]))
-        _, ld = bd.ref_eval(node, "fwd", an.reshape(np.shape(x)), c, True)
-        if abs(sign * float(np.asarray(got_ld)) - ld) <= (tol + 1e-6) * (1 + abs(ld)):
-            return True
-    return False
+    from vf import bijcase as bc
+    target = sign * float(np.asarray(got_ld))
+    return bc.kink_match(lambda xn: bd.ref_eval(node, "fwd", xn, c, True)[1], x, bd.tree_points(node), target,
+                         (tol + 1e-6) * (1 + abs(target)))
 
 
 def culprit(node, inp):
